@@ -559,6 +559,10 @@ class Monitor:
                 elif g[0] != want:
                     self.fail('subscription-end-wrong-address', f'subscription {i}: SubscriptionEnd to {g[0]}, expected {want} '
                               f'({"EndTo" if r["end"] is not None else "NotifyTo"})')
+            elif got.get(i) and r['unsub']:
+                # the code (both variants) excludes unsubscribed subscriptions explicitly; a subscriber that has
+                # unsubscribed must not be sent anything any more
+                self.fail('subscription-end-after-unsubscribe', f'unsubscribed subscription {i} got a SubscriptionEnd')
             r['ended'] = True
 
 
@@ -745,27 +749,42 @@ def _worker(case):
         return None, None, [('harness-error', traceback.format_exc()[-800:])], {'harness-error:' + type(ex).__name__: 1}
 
 
-def _shrink(case, sig):
-    """greedy removal of ops while the same oracle signature still fires"""
-    ops = list(case['ops'])
-    i = len(ops) - 1
-    while i >= 0:
-        if ops[i][0] != 'sub':     # removing a subscribe renumbers the ids the other ops refer to
-            trial = dict(case, ops=ops[:i] + ops[i + 1:])
-            try:
-                if any(s == sig for s, _ in execute(trial)[2]):
-                    ops = trial['ops']
-            except Exception:  # noqa: BLE001
-                pass
-        i -= 1
-    # drop trailing subscribes that are not needed
-    while ops and ops[-1][0] == 'sub':
-        trial = dict(case, ops=ops[:-1])
-        if any(s == sig for s, _ in execute(trial)[2]):
-            ops = trial['ops']
-        else:
-            break
+def _still(case, sig):
+    try:
+        return any(s == sig for s, _ in execute(case)[2])
+    except Exception:  # noqa: BLE001
+        return False
+
+
+def _without_sub(case, idx):
+    """the case without the subscribe op at position idx; identifiers of later subscriptions are renumbered"""
+    outs = execute(case)[1][1:]
+    o = outs[idx].split()
+    ops = [list(op) for k, op in enumerate(case['ops']) if k != idx]
+    if o[0] == 'subscribed':
+        gone = int(o[1])
+
+        def ren(x):
+            if x is None or x < gone:
+                return x
+            return 900 + x if x == gone else x - 1
+        for op in ops:
+            if op[0] in ('renew', 'status', 'unsub'):
+                op[1], op[2] = ren(op[1]), ren(op[2])
     return dict(case, ops=ops)
+
+
+def _shrink(case, sig):
+    """greedy removal of ops (last to first, two passes) while the same oracle signature still fires"""
+    for _ in range(2):
+        i = len(case['ops']) - 1
+        while i >= 0:
+            op = case['ops'][i]
+            trial = _without_sub(case, i) if op[0] == 'sub' else dict(case, ops=case['ops'][:i] + case['ops'][i + 1:])
+            if _still(trial, sig):
+                case = trial
+            i -= 1
+    return case
 
 
 def _evaluate(ctx, cases, label):
@@ -852,8 +871,11 @@ def replay(ctx, obj):  # noqa: ARG001
     import logging
     logging.disable(logging.CRITICAL)
     lines, outs, fails, _ = execute(obj['case'])
-    for ln, o in zip(lines, outs):
-        print(f'  {ln:60s} -> {o}')
+    print(f'  manager={obj["case"]["mgr"]} cfg: {lines[0]}')
+    for op, o in zip(obj['case']['ops'], outs[1:]):
+        short = [(x.rsplit('/', 1)[-1] if isinstance(x, str) else [y.rsplit('/', 1)[-1] if y.startswith('http') else y for y in x] if isinstance(x, list) else x)
+                 for x in op]
+        print(f'  {json.dumps(short):90s} -> {o}')
     for s, d in fails:
         print('  oracle:', s, '-', d)
     return any(s == obj.get('signature') for s, _ in fails)
